@@ -26,3 +26,30 @@ Definition sql_ocol {R A} (col : R -> option A) (j : option R) : option A :=
 
 Definition sql_exists {R} (e : R -> option bool) (T : list R) : option bool :=
   Some (existsb (fun r => sql_true (e r)) T).
+
+(* ... WHERE p ORDER BY k DESC LIMIT n, as the WHERE of a DELETE on the same table's primary key:
+   SQLite sorts the rows that satisfy p by k, greatest first, and the statement hits the first n
+   of them.  Stated on the keys [ks] of the rows hit (k is NOT NULL and identifies a row among the
+   rows that satisfy p — volume_index within one volume):
+     every key in ks is the key of a row that satisfies p, none twice;
+     there are as many as the LIMIT allows;
+     no row that satisfies p and is not hit has a greater key than a row that is hit. *)
+Fixpoint memZ (z : Z) (l : list Z) : bool :=
+  match l with [] => false | x :: t => (z =? x)%Z || memZ z t end.
+Fixpoint nodupZ (l : list Z) : bool :=
+  match l with [] => true | x :: t => negb (memZ x t) && nodupZ t end.
+
+Definition sql_keys {R} (p : R -> bool) (k : R -> option Z) (rows : list R) : list Z :=
+  flat_map (fun r => match k r with Some z => [z] | None => [] end) (filter p rows).
+
+(* the smallest of a list of keys (0 for the empty list: not used then) *)
+Fixpoint minZ (l : list Z) : Z :=
+  match l with [] => 0%Z | [x] => x | x :: t => Z.min x (minZ t) end.
+
+Definition sql_top_desc {R} (p : R -> bool) (k : R -> option Z) (n : nat) (rows : list R) (ks : list Z) : bool :=
+  let ekeys := sql_keys p k rows in
+  nodupZ ks && forallb (fun z => memZ z ekeys) ks &&
+  Nat.eqb (List.length ks) (Nat.min n (List.length ekeys)) &&
+  (* every row that satisfies p and is not hit has a smaller key than every row that is hit,
+     i.e. than the smallest key that is hit *)
+  forallb (fun z' => memZ z' ks || (z' <? minZ ks)%Z) ekeys.
